@@ -18,7 +18,7 @@ import json
 import time
 
 from . import build, project
-from .core import MachineryError, Part, merge_worker_outputs, parallel_replay
+from .core import trim, MachineryError, Part, merge_worker_outputs, parallel_replay
 from .fam_iter import counting_class, fingerprint
 from .fam_multi import collect_nodes, engines, sql_mat_after_xfer
 from .fam_sql import bag, db, load_table, nested_compound
@@ -98,12 +98,14 @@ def tree_shape(r):
     return json.dumps(strip(project.tree(r)), sort_keys=True)
 
 
-def replay_state(st: dict, out: dict) -> None:
+def replay_state(st: dict, out: dict, lazy: bool = False) -> None:
     from lsst.daf.relation import Materialization, Transfer, sql
 
     viol = out["violations"]
     cnt = out["counters"]
     case = {k: st[k] for k in ("src", "l1", "hist", "evhist")}
+    if lazy:
+        case["processor"] = "plain transfers hand over lazy payloads"
     exp = [r if isinstance(r, dict) else {} for r in st["rows"]]
 
     def V(props, what, **kw):
@@ -122,7 +124,7 @@ def replay_state(st: dict, out: dict) -> None:
     mats = {n.name: n for n in collect_nodes(rel) if isinstance(n, Materialization)}
     xfers = [n for n in collect_nodes(rel) if isinstance(n, Transfer)]
     shape0 = tree_shape(rel)
-    proc = make_processor(w.conn, w.eng["sql"])
+    proc = make_processor(w.conn, w.eng["sql"], lazy_transfers=lazy)
     seen_payload = {}  # mat name -> payload object first seen
     last_out = None
     known = False
@@ -256,6 +258,18 @@ def replay_state(st: dict, out: dict) -> None:
                                       f"specification's state machine says it {'has none' if has else 'has one'}")
                 elif has:
                     saved = w.counter.starts if w.counter is not None else 0
+                    if w.counter is not None and node.payload is not w.counter:
+                        # reading the cached payload a second time must not re-evaluate the upstream tree
+                        try:
+                            payload_rows(node, proc)
+                            mid = w.counter.starts
+                            payload_rows(node, proc)
+                            if w.counter.starts > mid:
+                                V(["C10"], f"reading the payload of materialization {name!r} again re-evaluates its upstream tree "
+                                           "(the payload is not a cache of the rows)")
+                        except Exception:  # noqa: BLE001 - reported below
+                            pass
+                        w.counter.starts = saved
                     try:
                         got = payload_rows(node, proc)
                     except Exception as exc:  # noqa: BLE001
@@ -327,8 +341,12 @@ def worker(lines, ctx):
         if st["fired"]:
             out["nontrivial"] += 1
         replay_state(st, out)
-        if len(out["violations"]) > 40:
-            out["violations"] = out["violations"][:40]
+        if st["src"] == "it1" and st["iteronly"] and any(a["a"] in ("process", "reprocess") for a in st["evhist"]):
+            # second pass with a Processor whose plain transfers are lazy: only materializations may cache
+            replay_state(st, out, lazy=True)
+            out["counters"]["lazy_processor_histories"] = out["counters"].get("lazy_processor_histories", 0) + 1
+        if len(out["violations"]) > 60:
+            out["violations"] = trim(out["violations"])
         if len(out["samples"]) < 1 and len(st["evhist"]) >= 2:
             out["samples"].append({"src": st["src"], "hist": st["hist"], "evhist": st["evhist"], "pay": st["pay"], "evals": st["evals"]})
     return out
